@@ -273,9 +273,11 @@ func (s *SpokFile) run(stream iostream.IOStream, runner shell.Runner, force bool
 			// as it is known, independently of what happens to the other tasks in this run.
 			if cachedDigest != "" {
 				cachedState.Set(taskToRun.Name, "")
+				verifhook.At("cache.before-dump")
 				if err := cachedState.Dump(cachePath); err != nil {
 					return nil, err
 				}
+				verifhook.At("cache.after-dump")
 			}
 			verifhook.At("task.before-exec", "task", taskToRun.Name)
 			result, err = taskToRun.Run(runner, stream, s.Env())
@@ -286,9 +288,11 @@ func (s *SpokFile) run(stream iostream.IOStream, runner shell.Runner, force bool
 			if hasFiles && currentDigest != "" && result.Ok() {
 				s.logger.Debug("Updating cached state for task %s", taskToRun.Name)
 				cachedState.Set(taskToRun.Name, currentDigest)
+				verifhook.At("cache.before-dump")
 				if err := cachedState.Dump(cachePath); err != nil {
 					return nil, err
 				}
+				verifhook.At("cache.after-dump")
 			}
 		}
 
